@@ -25,7 +25,7 @@ EXPLANATION = (
     'assembly gives every positional parameter exactly one outcome; (g) '
     'Functor._on_change processes every update of a batch.  Agreement with '
     'the interpreter\'s binding rules is differential and not decided.')
-FLOORS = {'C18.a': 4, 'C18.b': 1, 'C18.c': 1, 'C18.d': 2, 'C18.e': 1, 'C18.f': 1, 'C18.g': 1, 'C18.h': 1, 'C18.i': 2, 'C18.j': 2, 'C18.k': 1, 'C18.l': 3, 'C18.m': 2, 'C18.n': 3}
+FLOORS = {'C18.a': 4, 'C18.b': 1, 'C18.c': 1, 'C18.d': 2, 'C18.e': 1, 'C18.f': 1, 'C18.g': 1, 'C18.h': 1, 'C18.i': 2, 'C18.j': 2, 'C18.k': 1, 'C18.l': 3, 'C18.m': 2, 'C18.n': 3, 'C18.o': 3}
 FILES = ['pyglove/core/symbolic/functor.py', 'pyglove/core/symbolic/class_wrapper.py',
          'pyglove/core/symbolic/symbolize.py', 'pyglove/core/typing/callable_signature.py',
          'pyglove/core/coding/function_generation.py', 'pyglove/core/symbolic/object.py']
@@ -474,7 +474,7 @@ def rule_j(ctx):
            f.loc, '; '.join(raw) or 'the bound arguments are not read here any more')
 
 
-def rule_k(ctx):
+def rule_k(ctx, rule_id='C18.k'):
   """Functor.__delattr__: removing the stored value notifies _on_change, which
   maintains the argument sets for an update; the explicit bookkeeping of the
   deletion must come after it, or it is overwritten."""
@@ -499,8 +499,20 @@ def rule_k(ctx):
     if dels and g.can_skip(g.entry, lambda n: n in dels, to=k) is not None:
       problems.append(f'line {k.ast.lineno}: `{A.unparse(k.ast, 60)}` runs before the removal, whose change '
                       f'notification then rewrites the sets')
-  ctx.ob('C18.k', f.fq, not problems,
-         'the deletion of a bound argument precedes the bookkeeping of the argument sets', f.loc, '; '.join(problems))
+  # ... and happens only if the removal went through: not in a `finally` / handler of a
+  # try around the removal (a refused deletion - sealed functor, read-only scope - must
+  # leave the functor as it was)
+  for t in ast.walk(f.node):
+    if isinstance(t, ast.Try) and any(isinstance(x, ast.Delete) or (isinstance(x, ast.Call) and (A.call_name(x) or '') in (
+        'self._sym_attributes.pop', 'self.sym_rebind', 'self.rebind')) for b_ in t.body for x in ast.walk(b_)):
+      for blk in [t.finalbody] + [h.body for h in t.handlers]:
+        for x in (y for st in blk for y in ast.walk(st)):
+          if isinstance(x, ast.Call) and isinstance(x.func, ast.Attribute) and A.unparse(x.func.value) in SETS \
+              and x.func.attr in ('add', 'discard', 'remove'):
+            problems.append(f'line {x.lineno}: `{A.unparse(x, 50)}` also runs when the removal was refused')
+  ctx.ob(rule_id, f.fq, not problems,
+         'the bookkeeping of a deleted argument follows the removal and happens only if the removal succeeded', f.loc,
+         '; '.join(problems))
 
 
 def rule_m(ctx):
@@ -629,6 +641,53 @@ def rule_n(ctx):
          '; '.join(problems))
 
 
+def rule_o(ctx):
+  """(1) The store for call-time member overrides of a class-based functor is
+  private to the INSTANCE (a fresh threading.local() per object): one store
+  shared by all functors lets a functor called from another's _call read the
+  caller's values.  (2) A flag that is set around the user __init__ without
+  try/finally stays set when __init__ raises; so nothing in the wrapper may
+  branch on it (or the reset is in a finally).  (3) Signature.get_value_spec
+  answers for keyword-capable parameters only (named arguments, else **kwargs):
+  the *args name is not a keyword."""
+  idx = ctx.index
+  f = idx.func(FN + '__init__')
+  stores = [st for st in ast.walk(f.node) if isinstance(st, ast.Assign) and A.unparse(st.targets[0]) == 'self._tls']
+  ok = bool(stores) and all(any(isinstance(c, ast.Call) and (A.call_name(c) or '').endswith('threading.local')
+                                for c in ast.walk(st.value)) for st in stores)
+  ctx.ob('C18.o', f.fq + '#tls-per-instance', ok,
+         'each class-based functor gets its own threading.local() for call-time member overrides', f.loc,
+         'self._tls is not a fresh threading.local(): the override store is shared between functor objects')
+  c = idx.cls('pyglove.core.symbolic.class_wrapper._SubclassedWrapperBase')
+  FLAG = '_wrapped_cls_initializing'
+  problems = []
+  for name, m in c.methods.items():
+    g = C.cfg_of(m.node)
+    for k in g.nodes:
+      if k.kind == 'test' and FLAG in A.unparse(k.ast):
+        # acceptable only if every reset of the flag sits in a finally
+        resets_ok = True
+        for m2 in c.methods.values():
+          for call in A.calls_in(m2.node):
+            if (A.call_name(call) or '').endswith('__setattr__') and len(call.args) >= 3 \
+                and A.const_str(call.args[1]) == FLAG and A.unparse(call.args[2]) == 'False':
+              in_finally = any(isinstance(t, ast.Try) and any(call is x for st in t.finalbody for x in ast.walk(st))
+                               for t in ast.walk(m2.node))
+              resets_ok = resets_ok and in_finally
+        if not resets_ok:
+          problems.append(f'{name}:{k.lineno} branches on `{FLAG}`, which stays True after a user __init__ that raised')
+  ctx.ob('C18.o', c.fq + '#initializing-flag', not problems,
+         'the wrapper does not branch on a flag that a raising user __init__ leaves set', c.loc, '; '.join(problems))
+  f = idx.func(CSIG + 'Signature.get_value_spec')
+  bad = [f'line {r.lineno}: `{A.unparse(r, 60)}`' for r in ast.walk(f.node) if isinstance(r, ast.Return) and r.value is not None
+         and any(isinstance(x, ast.Attribute) and x.attr == 'varargs' for x in ast.walk(r.value))]
+  bad += [f'line {t.lineno}: test `{A.unparse(t.test, 60)}`' for t in ast.walk(f.node) if isinstance(t, ast.If)
+          and any(isinstance(x, ast.Attribute) and x.attr == 'varargs' for x in ast.walk(t.test))]
+  ctx.ob('C18.o', f.fq + '#keyword-capable', not bad,
+         'get_value_spec resolves named parameters and **kwargs only: the *args name cannot be given by keyword', f.loc,
+         '; '.join(bad))
+
+
 def run(ctx):
   ctx.consult(*FILES)
   rule_a(ctx)
@@ -644,5 +703,6 @@ def run(ctx):
   rule_k(ctx)
   rule_m(ctx)
   rule_n(ctx)
+  rule_o(ctx)
   S.typecheck_flag_obligations(ctx, 'C18.l', ['pyglove/core/symbolic/functor.py', 'pyglove/core/symbolic/class_wrapper.py', 'pyglove/core/symbolic/object.py'], floor=3)
   ctx.assume('agreement with the interpreter\'s argument binding is differential by nature: not decided')
